@@ -50,6 +50,8 @@ pub struct ChainM {
     pub codes: BTreeMap<u64, CodeM>,
     pub block: (u64, u64, String),
     pub api: ApiKind,
+    /// the wasm keeper's address generator gives every code one address only (instead of one per instance)
+    pub one_address_per_code: bool,
 }
 
 #[derive(Clone, Debug, PartialEq)]
@@ -237,7 +239,7 @@ fn ok_str<T: std::fmt::Debug>(v: T) -> String {
 
 impl ChainM {
     pub fn new(block: (u64, u64, String)) -> Self {
-        ChainM { st: State { bank: Ledger::default(), contracts: BTreeMap::new(), custom: BTreeMap::new() }, codes: BTreeMap::new(), block, api: ApiKind::Std }
+        ChainM { st: State { bank: Ledger::default(), contracts: BTreeMap::new(), custom: BTreeMap::new() }, codes: BTreeMap::new(), block, api: ApiKind::Std, one_address_per_code: false }
     }
 
     /// `api.norm`, noting for coverage when another spelling of a decodable address is accepted or rejected.
@@ -441,7 +443,7 @@ impl ChainM {
                     None => return Err(Why::NoSuchCode),
                 };
                 let addr = match salt {
-                    None => classic_address(self.api, *code_id, self.st.contracts.len() as u64),
+                    None => classic_address(self.api, *code_id, if self.one_address_per_code { 0 } else { self.st.contracts.len() as u64 }),
                     Some(s) => match salted_address(self.api, &code.checksum, sender, s.as_slice()) {
                         Some(a) => a,
                         None => return Err(Why::BadSalt),
